@@ -1078,7 +1078,18 @@ def main():
     real_stdout = sys.stdout
     sys.stdout = sys.stderr          # the library prints diagnostics; keep the JSON channel clean
     opts = inp.get("opts", {})
-    res = [run_case(c, opts) for c in inp["cases"]]
+    res = []
+    for c in inp["cases"]:
+        try:
+            res.append(run_case(c, opts))
+        except BaseException as e:
+            # the library raised while it was only being OBSERVED (dump(), str(ref), the indices, verify(), an oracle's
+            # read): reported as this case's outcome, never a crash of the runner
+            import traceback
+            tb = "".join(traceback.format_exception(e))[-1500:]
+            stub = {"err": "Crash", "crash": tb, "store": [], "trace": [], "start_order": [], "tasks": [], "prev": [], "frozen": False,
+                    "dump": [], "indices": {"rdeps": [], "rtasks": [], "deptasks": [], "tartasks": []}, "oracle": {"canon": []}}
+            res.append([dict(stub) for _ in c["ops"]])
     json.dump({"cases": res, "cythonized": bool(is_cythonized())}, real_stdout)
 
 
